@@ -1,4 +1,5 @@
 import Ekit.Props.C19
+import Ekit.Props.C19T
 open Ekit.Retry
 #print axioms c19_ctor_exp
 #print axioms c19_ctor_fixed
@@ -28,3 +29,9 @@ open Ekit.Retry
 #print axioms c19_retry_waits_spec_intervals
 #print axioms c19_old_ticker_violates_gap
 #print axioms c19_new_timer_same_run
+#print axioms c19_counter_wrap_general
+#print axioms c19_conc_in_bounds_seen
+#print axioms c19_conc_in_bounds_partial_of_seen
+#print axioms c19_conc_in_bounds_iff
+#print axioms c19_initial_sq_not_necessary
+#print axioms c19_staleCfg_not_safeSeen
